@@ -17,6 +17,8 @@ import (
 
 	"pgregory.net/rapid"
 
+	"Havoc/pkg/packager"
+
 	"verifharness/internal/agx"
 	"verifharness/internal/core"
 	"verifharness/internal/demonref"
@@ -54,7 +56,7 @@ func genMetaText(t *rapid.T, l string) string {
 	s := rapid.OneOf(
 		rapid.StringMatching(`[A-Za-z0-9\-_. ]{0,20}`),
 		rapid.Just(""),
-		rapid.StringOfN(rapid.RuneFrom(nil, rangeTable(0xa1, 0xd7ff)), 1, 10, -1),
+		bmpMeta,
 		rapid.Just("O'Brien \"q\" 0123"),
 	).Draw(t, l)
 	return strings.Trim(s, "\x00")
@@ -88,7 +90,7 @@ func genC(t *rapid.T) CaseC {
 	for i := 0; i < k; i++ {
 		l := fmt.Sprintf("op%d_", i)
 		op := OpC{
-			Kind: rapid.SampledFrom([]string{"reg", "reg", "reg", "rereg", "checkin", "cbcheckin", "cbcheckin", "reg0", "truncreg", "smbreg"}).Draw(t, l+"kind"),
+			Kind: rapid.SampledFrom([]string{"reg", "reg", "reg", "rereg", "rereg", "checkin", "cbcheckin", "cbcheckin", "reg0", "truncreg", "smbreg", "markdead", "exitcb", "markalive"}).Draw(t, l+"kind"),
 			Slot: rapid.IntRange(0, n-1).Draw(t, l+"slot"), Other: rapid.IntRange(0, n-1).Draw(t, l+"other"),
 			Meta: genMetaC(t, l), KeySeed: rapid.Byte().Draw(t, l+"ks"), ZeroKey: rapid.IntRange(0, 6).Draw(t, l+"zk") == 0,
 			Cut: rapid.IntRange(0, 400).Draw(t, l+"cut"), InnerOwn: rapid.Bool().Draw(t, l+"own"), NewKey: rapid.IntRange(0, 3).Draw(t, l+"nk") == 0,
@@ -290,6 +292,33 @@ func checkC(c CaseC) *core.Violation {
 				m.key, m.iv = nk, niv
 			}
 			// a CHECKIN callback naming another id must not rename or re-key the session (identity never changes)
+		case "markdead", "markalive":
+			// operator marks the session dead / alive (dispatch.go Session/MarkAsDead); the session keeps its id:
+			// a later DEMON_INIT for it is still a reconnect of that session, never a second session
+			if model[id] == nil {
+				continue
+			}
+			mark := "Dead"
+			if op.Kind == "markalive" {
+				mark = "Alive"
+			}
+			pk := packager.Package{}
+			pk.Head.Event = packager.Type.Session.Type
+			pk.Head.User = "op"
+			pk.Body.SubEvent = packager.Type.Session.MarkAsDead
+			pk.Body.Info = map[string]interface{}{"AgentID": fmt.Sprintf("%08x", id), "Marked": mark}
+			w.TS.DispatchEvent(pk)
+		case "exitcb":
+			// the agent answers an exit task (Command.c CommandExit: one Int32) and is marked dead
+			m := model[id]
+			if m == nil {
+				continue
+			}
+			s := agx.Sess{ID: id, Key: m.key, IV: m.iv}
+			req := uint32(0x2000 + si)
+			w.Input("op", map[string]interface{}{"DemonID": s.NameID(), "CommandID": "92", "TaskID": fmt.Sprintf("%08x", req), "CommandLine": "exit", "ExitMethod": "thread"})
+			w.Checkin(s, nil)
+			w.Checkin(s, []demonref.Sub{{Cmd: 92, ReqID: req, Body: (&demonref.Enc{}).Int32(1).B}})
 		case "reg0":
 			// header id 0, inner id X
 			pk := op.Meta.ref(id).InitPackage(0, key, iv)
@@ -350,7 +379,7 @@ func classifyC(c CaseC) core.Class {
 		ks[op.Kind] = true
 		cl.Labels = append(cl.Labels, "op:"+op.Kind)
 	}
-	cl.NonTrivial = ks["rereg"] || ks["cbcheckin"] || ks["reg0"] || ks["smbreg"]
+	cl.NonTrivial = ks["rereg"] || ks["cbcheckin"] || ks["reg0"] || ks["smbreg"] || ks["markdead"] || ks["exitcb"]
 	var names []string
 	for k := range ks {
 		names = append(names, k)
@@ -363,7 +392,7 @@ func classifyC(c CaseC) core.Class {
 func TestC03c(t *testing.T) {
 	core.Run(t, core.Spec[CaseC]{
 		Property: "C03", Sub: "c",
-		Rule: "histories of 1-14 operations over 2-4 agent ids (incl. >=2^31) on the real Teamserver + sqlite + HTTP listener engine: registration, DEMON_INIT for an existing id, check-in, COMMAND_CHECKIN callback naming the sender or another id (same or new key), registration with header id 0, truncated registration, registration of a child through SMB_CONNECT; after every step the session table is compared with a model (ids exactly the registered ones and pairwise distinct, key/IV/metadata as sent, registration reply = id under the session key). Non-trivial: history with a re-registration, CHECKIN callback, header-0 registration or SMB registration; distinct = (set of op kinds, length bucket)",
+		Rule: "histories of 1-14 operations over 2-4 agent ids (incl. >=2^31) on the real Teamserver + sqlite + HTTP listener engine: registration, DEMON_INIT for an existing id (alive, marked dead, exited), check-in, operator mark dead/alive, exit callback, COMMAND_CHECKIN callback naming the sender or another id (same or new key), registration with header id 0, truncated registration, registration of a child through SMB_CONNECT; after every step the session table is compared with a model (ids exactly the registered ones and pairwise distinct, key/IV/metadata as sent, registration reply = id under the session key). Non-trivial: history with a re-registration, CHECKIN callback, header-0 registration or SMB registration; distinct = (set of op kinds, length bucket)",
 		Gen:   genC, Check: checkC, Classify: classifyC,
 	})
 }
